@@ -63,7 +63,7 @@ CHECKS = {
              "Done() returned true and the leecher is then stopped); TLC checks these clauses on the closed specifications. TLC "
              "enumerates every environment script (BaseLeecherScen.tla: register/unregister over 2 peers, tick, "
              "ShouldTerminateSession toggle, terminate, both candidate picks; PeerLeecherScen.tla: tick, chunk, processed(i), suspend "
-             "toggle, setdone, parallelism 1 and 2) of 5/6 steps (quick) and 7/8 steps (thorough); each script is executed "
+             "toggle, setdone, parallelism 1 and 2) of 5/6 steps (quick) and 7/7 steps (thorough); each script is executed "
              "synchronously on the real BaseLeecher / BasePeerLeecher and the recorded call+callback log is validated by TLC.",
         note="Exhaustive within the bounded script space. The specifications leave open when and how much the leechers request or "
              "start, so a scenario-enumeration + trace-validation binding is used instead of plain edge replay. The peer leecher's "
